@@ -10,6 +10,7 @@ import (
 	"testing"
 
 	"github.com/iancoleman/strcase"
+	"github.com/xinchentechnote/fin-protoc/verifharness/cli"
 	"github.com/xinchentechnote/fin-protoc/verifharness/dsl"
 	"github.com/xinchentechnote/fin-protoc/verifharness/inproc"
 	"github.com/xinchentechnote/fin-protoc/verifharness/pbt"
@@ -42,9 +43,20 @@ func expectedAdds(lay *ref.Layout) []luaExpect {
 func evalC15(k xCase) []pbt.Violation {
 	p := k.Prog
 	text := dsl.PlainText(p)
+	if k.Text != "" {
+		text = k.Text
+	}
 	res := inproc.Compile(text, []string{"lua"})
 	if res.Panic != "" {
 		return nil
+	}
+	if res.OK() && k.ViaCLI && cli.Bin() != "" {
+		// the script as the command line tool leaves it in a directory that held an earlier revision
+		if files, note := filesViaCLI(text, []string{"lua"}, res.Files); files != nil {
+			res.Files = files
+		} else {
+			return []pbt.Violation{{External: true, Signature: "cli-fails-where-library-succeeds", Detail: note}}
+		}
 	}
 	if !res.OK() {
 		return []pbt.Violation{{Signature: "wellformed-rejected:" + msgClass(res.ParseErr+diagMsgs(res)), Detail: "the compiler rejects a well-formed program: " + clip(res.ParseErr+diagMsgs(res), 200)}}
@@ -181,6 +193,13 @@ func TestC15(t *testing.T) {
 			return
 		}
 		k.Langs = []string{"lua"}
+		if cli.Bin() != "" && rapid.IntRange(0, 7).Draw(rt, "via_cli") == 0 {
+			k.ViaCLI = true
+			c.Class("script-written-by-cli-into-stale-directory")
+		}
+		if k.Text != "" {
+			c.Class("respelled-text")
+		}
 		c.EvalN(len(k.Msgs))
 		for _, f := range k.Prog.Features() {
 			c.Class("feat:" + f)
